@@ -372,6 +372,9 @@ type s3Obj struct {
 }
 
 type fakeS3 struct {
+	// chunked: GET responses are streamed with chunked transfer encoding and
+	// carry no Content-Length (a proxy in front of the bucket does this)
+	chunked bool
 	mu     sync.Mutex
 	gate   gate
 	bucket string
@@ -465,8 +468,17 @@ func (s *fakeS3) ServeHTTP(w http.ResponseWriter, r *http.Request) {
 			return
 		}
 		w.Header().Set("ETag", o.etag)
-		w.Header().Set("Content-Length", strconv.Itoa(len(o.data)))
 		w.Header().Set("Content-Type", "text/plain; charset=utf-8")
+		if s.chunked {
+			half := len(o.data) / 2
+			w.Write(o.data[:half])
+			if f, ok := w.(http.Flusher); ok {
+				f.Flush()
+			}
+			w.Write(o.data[half:])
+			return
+		}
+		w.Header().Set("Content-Length", strconv.Itoa(len(o.data)))
 		w.Write(o.data)
 	case "PUT":
 		v := s.gate(clientOf(r), "s3.PUT", key, true)
